@@ -355,6 +355,10 @@ def parse_cmd_pkt(line: bytes) -> tuple[bytes, list[bytes]]:
     return cmd, args[:-1].split(b"\0")
 
 
+# A pkt-line is at most 65520 bytes long, including its 4-byte length prefix.
+MAX_PKT_LINE_PAYLOAD = 65520 - 4
+
+
 def pkt_line(data: bytes | None) -> bytes:
     """Wrap data in a pkt-line.
 
@@ -365,6 +369,10 @@ def pkt_line(data: bytes | None) -> bytes:
     """
     if data is None:
         return b"0000"
+    if len(data) > MAX_PKT_LINE_PAYLOAD:
+        raise ValueError(
+            f"pkt-line payload of {len(data)} bytes exceeds {MAX_PKT_LINE_PAYLOAD}"
+        )
     return f"{len(data) + 4:04x}".encode("ascii") + data
 
 
